@@ -88,7 +88,7 @@ def rec_s3_cls():
 
 class RecBytesIO(io.BytesIO):
     """The user's seekable stream: logs what is asked of it.  With `sizes` it returns
-    short reads like NonSeekableReader (outside the full-read assumption)."""
+    scripted short reads like NonSeekableReader."""
 
     def __init__(self, data, sizes=None):
         super().__init__(data)
@@ -337,8 +337,6 @@ def upload_cases(ctx, with_retries):
                     continue
                 for kind in ('path', 'seek', 'seekpos', 'stream', 'stream-short', 'stream-rand', 'seek-short'):
                     n += 1
-                    if kind == 'seek-short' and (with_retries or n % 5):
-                        continue
                     if with_retries and not ctx.thorough() and (n // 7 + n) % 4 != 0:
                         continue
                     limits = [(1, 1000, 1000), (2, 9, 4), (1, 5, 3)][n % 3]
@@ -351,7 +349,6 @@ def upload_cases(ctx, with_retries):
                     elif kind == 'seekpos':
                         case.update(kind='seek', pos=rng.randrange(1, 7))
                     elif kind == 'seek-short':
-                        # OUTSIDE the hypothesis of seekable_parts_tile (full reads): differential only
                         case.update(kind='seek', pos=rng.randrange(0, 4),
                                     script=[rng.randrange(1, 4) for _ in range(rng.randrange(1, size + 3))])
                     elif kind == 'stream':
@@ -390,34 +387,23 @@ def check_uploads(ctx, tmpdir, with_retries):
         return impl_line_upload(c, obs)
 
     def hist(c, o):
-        return {'kind': c['kind'] + ('+pos' if c.get('pos') else '') + ('+short' if outside_hypothesis(c) else ''), 'mode': o.split()[0],
+        return {'kind': c['kind'] + ('+pos' if c.get('pos') else '') + ('+short' if short_seekable(c) else ''), 'mode': o.split()[0],
                 'short_reads': bool(c.get('script')), 'resends': c.get('resends', 'none')}
 
     mism = common.differential(ctx, 'uploadsrc', cases, model_line_upload, run_impl, hist=hist)
     # the differential counts under 'uploadsrc'; keep the families apart in the evidence
     ctx.cov['components'].setdefault(comp, {'cases': 0, 'hist': {}})['cases'] += len(cases)
     # oracle on every case (cheap: the run is already there)
-    lost = []
     for c in cases:
         obs = observations[id(c)]
         v = check_service(obs['client'], obs['data'], c['thr'], c['limits'][0], alg=bool(c.get('alg')), exc=obs['exc'])
-        if v and outside_hypothesis(c) and SEEKABLE_SHORT_READS == 'assumption':
-            lost.append((c, v))
-            continue
         if v:
             ctx.report(sig('c01:upload', oracle_key(c)), describe(c) + ': ' + v,
                        {'kind': 'input', 'component': comp, 'family': 'upload', 'case': c})
-    if lost:
-        c, v = lost[0]
-        ctx.notes.append(f'assumption witness (seekable streams return full reads): {len(lost)} seekable short-read cases lose '
-                         f'bytes on the implementation exactly as model/UploadSrc.v predicts (seekable_short_reads_refuted), '
-                         f'e.g. {describe(c)}: {v}')
-        ctx.sample({'component': 'seekable-short-read-assumption', 'case': c, 'oracle': v,
-                    'impl_and_model_output': impl_line_upload(c, observations[id(c)])})
     for c, i, m in mism[:40]:
         obs = observations[id(c)]
         v = check_service(obs['client'], obs['data'], c['thr'], c['limits'][0], alg=bool(c.get('alg')), exc=obs['exc'])
-        if v and not (outside_hypothesis(c) and SEEKABLE_SHORT_READS == 'assumption'):
+        if v:
             continue        # already reported with the input
         if obs['exc'] is not None:
             ctx.report(sig('c01:upload-failed', oracle_key(c)),
@@ -429,21 +415,14 @@ def check_uploads(ctx, tmpdir, with_retries):
                    f'{describe(c)}: implementation and model/UploadSrc.v disagree on {field}: impl "{i}" model "{m}"',
                    {'kind': 'correspondence', 'theorem_or_correspondence': f'differential uploadsrc ({field})',
                     'family': 'upload', 'case': c, 'impl': i, 'model': m}, no_input=True)
-    for c in cases[:1] + [c for c in cases if c['kind'] == 'stream' and c.get('script') and c['size'] >= c['thr']][:1]:
+    for c in cases[:1] + [c for c in cases if c['kind'] == 'stream' and c.get('script') and c['size'] >= c['thr']][:1] + \
+            [c for c in cases if short_seekable(c) and c['size'] >= max(c['thr'], 2 * c['chunk'])][:1]:
         ctx.sample({'component': comp, 'case': c, 'model_cmd': model_line_upload(c),
                     'impl_and_model_output': impl_line_upload(c, observations[id(c)])})
     return cases
 
 
-# A seekable stream that returns short reads lies outside the hypothesis of seekable_parts_tile
-# (the manager fixes the part count from the measured size and reads each part once); the model
-# predicts the loss (seekable_short_reads_refuted) and the differential checks that prediction.
-# 'assumption': such cases are differential-only and recorded in the evidence; 'report': the
-# oracle's verdict on them is reported like any other (needs a known_findings entry or a repair).
-SEEKABLE_SHORT_READS = 'assumption'
-
-
-def outside_hypothesis(c):
+def short_seekable(c):
     return c.get('kind') == 'seek' and bool(c.get('script'))
 
 
@@ -912,8 +891,7 @@ def search_after_break(ctx, tmpdir):
 def run(ctx):
     common.proofs(ctx, 'C01', EXTRACT, COMPONENTS)
     ctx.assumptions = [
-        'seekable user streams return full reads (BytesIO, buffered files) and report their position truthfully -- written into seekable_parts_tile; seekable_short_reads_refuted shows it is necessary',
-        'a non-seekable read(n) returns 1..n bytes before EOF and nothing only at EOF; read() returns the rest (any script of such reads is covered)',
+        'a stream read(n) (seekable or not) returns 1..n bytes before EOF and nothing only at EOF; read() returns the rest (every script of such reads is covered); seekable streams report their position and size truthfully (tell / seek(0, 2)) and are positioned inside their data',
         'success of the future implies every part task ran its request once to a successful end and complete ran once after all of them with their results (Sys.v, properties C03-C08); the run functions take this as the shape of a successful run',
         'the client performs every request as Sign.Send.(rewind.Sign.Send)* ending in a complete send of positive-size reads (botocore life cycle, validated against the real endpoint by C09 thorough); everything before the last attempt is arbitrary',
         'the reference S3 (model/S3Spec.v = harness/fakes3.py): complete concatenates in listed order and rejects non-ascending lists, unknown parts/ETags, parts below the minimum size; part sizes above 5 GiB / more than 10000 parts are C14',
@@ -921,7 +899,7 @@ def run(ctx):
     ]
     ctx.cov['rule'] = (
         'upload cases: c,t in 1..9 x size in {0,1,c-1,c,c+1,2c-1,2c+1,t-1,t,t+1,3c} x source kind (path, BytesIO at 0 and at k, '
-        'non-seekable reader with no / all-1 / random short reads) x scaled adjuster limits x checksum on/off, each run through the real '
+        'BytesIO with scripted short reads, non-seekable reader with no / all-1 / random short reads) x scaled adjuster limits x checksum on/off, each run through the real '
         'TransferManager (NonThreadedExecutor) + FakeS3 and through the extracted model; the same with scripted sign reads and 0..3 '
         'resends cut at random points; copies and legacy upload_file on the same grid; scheduled multi-threaded runs (random/PCT) '
         'replayed on the model in the order the service applied the parts. distinct = distinct model command line (inputs) / '
